@@ -80,8 +80,15 @@ Definition c06_event_ok (g : c06cfg) (raw : Z) (ms : list msg) : bool :=
           (match q_kind g, m with
            | KCCuni, [st; d1; _] => (N.land st 240 =? CONTROL_CHANGE) && (d1 =? q_cc g)
            | KCCbidi, [st; d1; _] =>
+               (* a control change addressed to one of the two controllers of the pair; for a non-zero value: the one of the
+                  side the exact position is on.  For a value of 0 the other controller is zeroed too, both are 0 at the
+                  receiver and the side is immaterial (the float and the exact decision may differ exactly at the deadzone
+                  edge / the half threshold, where the value is 0; witnesses (Proofs/AnalogGeneral4.v, corners):
+                  mn=-1000, mx=1000, dz=0.999, raw=-999;  mn=0, mx=255, deadzone_at_center, dz=0.9764705882352941, raw=3;
+                  mn=0, mx=255, dz=0.003921568627450981, raw=128) *)
                let neg := if canneg then Qle_bool p 0%Q && negb (Qeq_bool p 0%Q) else Qle_bool (p * 2)%Q 1%Q && negb (Qeq_bool (p * 2)%Q 1%Q) in
-               (N.land st 240 =? CONTROL_CHANGE) && (d1 =? (if neg then q_ccneg g else q_cc g))
+               (N.land st 240 =? CONTROL_CHANGE) && ((d1 =? q_cc g) || (d1 =? q_ccneg g)) &&
+               ((t =? 0)%Z || (d1 =? (if neg then q_ccneg g else q_cc g)))
            | KPB, [st; _; _] => N.land st 240 =? PITCH_WHEEL
            | _, _ => false
            end)
